@@ -127,6 +127,8 @@ struct CaseState {
     rows: Vec<AssertionRow>,
     ord_of: HashMap<String, usize>,
     past: bool,
+    /// KML route: prop ordinal -> (subject concept id, value concept id, predicate name)
+    kml_terms: HashMap<usize, (String, String, &'static str)>,
 }
 
 impl World {
@@ -346,7 +348,10 @@ impl Inner {
                         let mut cx = Context::open(&self.nexus.store, DEFAULT_SPACE, None, None, &self.authority, &self.auth).await.expect("context");
                         match cx.project_slot(&cs.subject_key, &predicate, &cs.policy, &ts(cs.now)).await {
                             Ok(bs) if bs.is_empty() => "-".into(),
-                            Ok(bs) => bs.iter().map(|b| self.render(&cs, b, true)).collect::<Vec<_>>().join(" | "),
+                            Ok(bs) => {
+                                let summary = anda_cognitive_nexus::projection::slot_to_json(&cs.subject_key, &predicate, &bs);
+                                bs.iter().map(|b| self.render(&cs, b, true)).collect::<Vec<_>>().join(" | ") + &render_slot_summary(&cs, &summary)
+                            }
                             Err(e) => format!("err:{}", e.name()),
                         }
                     }
@@ -361,7 +366,7 @@ impl Inner {
     fn fresh_case(&self) -> CaseState {
         CaseState {
             policy: Policy::baseline(), den: 10, now: 0, functional: false, subject_key: String::new(),
-            props: HashMap::new(), prop_of: HashMap::new(), rows: Vec::new(), ord_of: HashMap::new(), past: false,
+            props: HashMap::new(), prop_of: HashMap::new(), rows: Vec::new(), ord_of: HashMap::new(), past: false, kml_terms: HashMap::new(),
         }
     }
 
@@ -378,13 +383,15 @@ impl Inner {
         }
         cmd.push('}');
         let res = exec(&self.nexus, &cmd, json!({})).await?;
+        let svc = res["handles"]["svc"].as_str().unwrap_or("").to_string();
         for p in props {
             if let Some(Ok(id)) = res["handles"][format!("p{p}")].as_str().map(|s| s.parse::<ElementId>()) {
                 cs.props.insert(*p, id);
                 cs.prop_of.insert(id.to_string(), *p);
+                cs.kml_terms.insert(*p, (svc.clone(), res["handles"][format!("v{p}")].as_str().unwrap_or("").to_string(), predicate));
             }
         }
-        Ok(res["handles"]["svc"].as_str().unwrap_or("").to_string())
+        Ok(svc)
     }
 
     /// The same ops, but every write is a KML command and every read a KQL `FIND … BELIEF`.
@@ -489,10 +496,17 @@ impl Inner {
                         let _ = self.kml_slot(&mut cs, &format!("{tag}-lonely{t}"), false, &[*t]).await;
                     }
                     let Some(pid) = cs.props.get(t).copied() else { out.push("err:prop".into()); continue 'ops };
-                    let cmd = format!("FIND(?b) WHERE {{ ?b BELIEF (id: :p) }} FOR TIME \"{}\"{epistemic}", ts_in(cs.past, cs.now));
-                    match exec(&self.nexus, &cmd, json!({"p": pid.to_string()})).await {
+                    // the three spellings of a BELIEF target: by id, through a bound variable, as a tuple
+                    let at = ts_in(cs.past, cs.now);
+                    let form = (self.kml_counter as usize + out.len()) % 3;
+                    let (cmd, params) = match (form, cs.kml_terms.get(t)) {
+                        (1, _) => (format!("FIND(?b) WHERE {{ ?p PROPOSITION (id: :p) ?b BELIEF (?p) }} FOR TIME \"{at}\"{epistemic}"), json!({"p": pid.to_string()})),
+                        (2, Some((svc, val, pred))) => (format!("FIND(?b) WHERE {{ ?b BELIEF (:s, \"{pred}\", :o) }} FOR TIME \"{at}\"{epistemic}"), json!({"s": svc, "o": val})),
+                        _ => (format!("FIND(?b) WHERE {{ ?b BELIEF (id: :p) }} FOR TIME \"{at}\"{epistemic}"), json!({"p": pid.to_string()})),
+                    };
+                    match exec(&self.nexus, &cmd, params).await {
                         Ok(res) => res.as_array().and_then(|a| a.first()).map(|j| render_json(&cs, j, None)).unwrap_or_else(|| "err:empty".into()),
-                        Err(e) => format!("err:find {e}"),
+                        Err(e) => format!("err:find(form {form}) {e}"),
                     }
                 }
                 Op::SlotProject if subject_id.is_empty() => "-".into(),
@@ -503,7 +517,8 @@ impl Inner {
                         Ok(res) => {
                             let projections = res.as_array().and_then(|a| a.first()).and_then(|s| s["candidate_projections"].as_array().cloned()).unwrap_or_default();
                             if projections.is_empty() { "-".into() } else {
-                                projections.iter().map(|j| { let p = cs.prop_of.get(j["proposition_id"].as_str().unwrap_or("")).copied(); render_json(&cs, j, Some(p.unwrap_or(usize::MAX))) }).collect::<Vec<_>>().join(" | ")
+                                let summary = res.as_array().and_then(|a| a.first()).cloned().unwrap_or(Json::Null);
+                                projections.iter().map(|j| { let p = cs.prop_of.get(j["proposition_id"].as_str().unwrap_or("")).copied(); render_json(&cs, j, Some(p.unwrap_or(usize::MAX))) }).collect::<Vec<_>>().join(" | ") + &render_slot_summary(&cs, &summary)
                             }
                         }
                         Err(e) => format!("err:find {e}"),
@@ -515,6 +530,13 @@ impl Inner {
         }
         out
     }
+}
+
+/// ` | slot accepted=<props> contested=<0|1>` from the object `slot_to_json` builds.
+fn render_slot_summary(cs: &CaseState, slot: &Json) -> String {
+    let accepted: Vec<usize> = slot["accepted_values"].as_array().map(|a| a.iter().map(|x| cs.prop_of.get(x.as_str().unwrap_or("")).copied().unwrap_or(usize::MAX)).collect()).unwrap_or_else(|| vec![usize::MAX]);
+    let contested = match slot["contested"].as_bool() { Some(true) => "1", Some(false) => "0", None => "?" };
+    format!(" | slot accepted={} contested={}", show_list(&accepted), contested)
 }
 
 fn render_json(cs: &CaseState, j: &Json, prop: Option<usize>) -> String {
